@@ -312,6 +312,111 @@ pub struct Outcome {
 	pub faults: BTreeMap<String, u64>,
 }
 
+/// The honest state archive with one thing changed, re-zipped: (what was changed, the archive).
+fn hostile_archive(honest: std::fs::File, ah: &BlockHeader, rng: &mut SimRng, work: &std::path::Path, target: Option<&str>) -> Result<(String, std::fs::File), String> {
+	use std::io::{Read, Seek, SeekFrom, Write};
+	use std::path::PathBuf;
+	let files: Vec<PathBuf> = vec![
+		PathBuf::from("kernel/pmmr_data.bin"),
+		PathBuf::from("kernel/pmmr_hash.bin"),
+		PathBuf::from("output/pmmr_data.bin"),
+		PathBuf::from("output/pmmr_hash.bin"),
+		PathBuf::from("output/pmmr_prun.bin"),
+		PathBuf::from("rangeproof/pmmr_data.bin"),
+		PathBuf::from("rangeproof/pmmr_hash.bin"),
+		PathBuf::from("rangeproof/pmmr_prun.bin"),
+		PathBuf::from(format!("output/pmmr_leaf.bin.{}", ah.hash())),
+		PathBuf::from(format!("rangeproof/pmmr_leaf.bin.{}", ah.hash())),
+	];
+	let zip_path = work.join("hostile.zip");
+	let kind = if target.is_some() { 0 } else { rng.below(8) };
+	if kind == 7 {
+		// not a sound zip at all: the honest archive cut in half, or noise
+		let mut bytes = vec![];
+		let mut h = honest;
+		h.seek(SeekFrom::Start(0)).map_err(|e| e.to_string())?;
+		h.read_to_end(&mut bytes).map_err(|e| e.to_string())?;
+		let what = if rng.chance(1, 2) {
+			bytes.truncate(bytes.len() / 2);
+			"zip-truncated"
+		} else {
+			bytes = rng.bytes(4096);
+			"zip-noise"
+		};
+		std::fs::write(&zip_path, &bytes).map_err(|e| e.to_string())?;
+		return Ok((what.to_string(), std::fs::File::open(&zip_path).map_err(|e| e.to_string())?));
+	}
+	let src = work.join("x");
+	std::fs::create_dir_all(&src).map_err(|e| e.to_string())?;
+	grin_util::zip::extract_files(honest, &src, files.clone()).map_err(|e| e.to_string())?;
+	let present: Vec<PathBuf> = files.iter().filter(|f| std::fs::metadata(src.join(f)).map(|m| m.len() > 0).unwrap_or(false)).cloned().collect();
+	if present.is_empty() {
+		return Err("empty archive".into());
+	}
+	let pick = match target {
+		Some(t) if present.iter().any(|p| p.to_str() == Some(t)) => PathBuf::from(t),
+		_ => present[rng.usize_below(present.len())].clone(),
+	};
+	let name = pick.to_str().unwrap_or("").split(".bin").next().unwrap_or("").to_string();
+	let path = src.join(&pick);
+	let len = std::fs::metadata(&path).map(|m| m.len()).unwrap_or(0);
+	let what = match kind {
+		0 | 1 => {
+			// the files reach up to the serving node's head: three flips in four land in the part
+			// the archive header commits to
+			let off = if rng.chance(3, 4) { rng.below((len * 2 / 5).max(1)) } else { rng.below(len) };
+			let mut b = std::fs::read(&path).map_err(|e| e.to_string())?;
+			b[off as usize] ^= 1 << rng.below(8);
+			std::fs::write(&path, &b).map_err(|e| e.to_string())?;
+			format!("byte-flip@{}:{}", name, off)
+		}
+		2 => {
+			let cut = (*rng.pick(&[1u64, 8, 32, 33, 40])).min(len);
+			let f = std::fs::OpenOptions::new().write(true).open(&path).map_err(|e| e.to_string())?;
+			f.set_len(len - cut).map_err(|e| e.to_string())?;
+			format!("truncate@{}:-{}", name, cut)
+		}
+		3 => {
+			std::fs::remove_file(&path).map_err(|e| e.to_string())?;
+			format!("file-removed@{}", name)
+		}
+		4 => {
+			let a = src.join(&files[8]);
+			let b = src.join(&files[9]);
+			let (da, db) = (std::fs::read(&a).unwrap_or_default(), std::fs::read(&b).unwrap_or_default());
+			if da == db {
+				// identical leaf sets: empty one of them instead
+				std::fs::write(&a, b"").map_err(|e| e.to_string())?;
+				"leaf-set-emptied@output".to_string()
+			} else {
+				std::fs::write(&a, &db).map_err(|e| e.to_string())?;
+				std::fs::write(&b, &da).map_err(|e| e.to_string())?;
+				"leaf-sets-swapped".to_string()
+			}
+		}
+		5 => {
+			let mut f = std::fs::OpenOptions::new().append(true).open(&path).map_err(|e| e.to_string())?;
+			let n = *rng.pick(&[1usize, 32, 33, 64, 100]);
+			f.write_all(&rng.bytes(n)).map_err(|e| e.to_string())?;
+			format!("junk-appended@{}:+{}", name, n)
+		}
+		_ => {
+			// the second quarter of one file overwritten with its first quarter (same length, entries
+			// of the right shape in the wrong places)
+			let mut b = std::fs::read(&path).map_err(|e| e.to_string())?;
+			let q = b.len() / 4;
+			let first: Vec<u8> = b[..q].to_vec();
+			b[q..2 * q].copy_from_slice(&first);
+			std::fs::write(&path, &b).map_err(|e| e.to_string())?;
+			format!("quarter-repeated@{}", name)
+		}
+	};
+	let dst = std::fs::OpenOptions::new().create(true).write(true).read(true).truncate(true).open(&zip_path).map_err(|e| e.to_string())?;
+	grin_util::zip::create_zip(&dst, &src, files).map_err(|e| e.to_string())?;
+	drop(dst);
+	Ok((what, std::fs::File::open(&zip_path).map_err(|e| e.to_string())?))
+}
+
 /// One state sync of a fresh receiver from the world's builder node.
 pub fn run(world: &World, cfg: &RunCfg, seed: u64, tag: &str) -> Outcome {
 	let mut rng = SimRng::new(seed);
@@ -357,6 +462,14 @@ pub fn run(world: &World, cfg: &RunCfg, seed: u64, tag: &str) -> Outcome {
 		}
 	}
 	let ref_digest = reference.digest().ok();
+	// Merkle proofs of the unspent outputs at the archive header: they depend on inner hashes of the
+	// output MMR that no root check of the receiver looks at
+	let ref_proofs: Vec<(Vec<u8>, Option<Vec<u8>>)> = world.blocks[archive_id]
+		.ledger
+		.values()
+		.take(200)
+		.map(|o| (o.commit.0.to_vec(), reference.chain().get_merkle_proof_for_pos(o.commit).ok().map(|p| sv(&p))))
+		.collect();
 	reference.destroy();
 	let ref_digest = match ref_digest {
 		Some(d) => d,
@@ -366,6 +479,71 @@ pub fn run(world: &World, cfg: &RunCfg, seed: u64, tag: &str) -> Outcome {
 	let mut rounds = 0u64;
 	if cfg.zip_mode {
 		bump(&mut probes, "zip_mode");
+		// byzantine archives first (faulty runs): the honest archive with one thing changed, re-zipped.
+		// Each is refused with the receiver untouched, or - if what was changed binds nothing - leads
+		// to the very state of the reference node; never a panic, never another state.
+		let mut finalized_by_hostile = false;
+		if cfg.corrupt_pct > 0 {
+			let before = receiver.digest().ok();
+			for attempt in 0..8 {
+				let work = crate::node::fresh_dir(&format!("{}-hz{}", tag, attempt));
+				// three at random, then one byte flip in each hash file and in two data files
+				let target = match attempt {
+					3 => Some("output/pmmr_hash.bin"),
+					4 => Some("rangeproof/pmmr_hash.bin"),
+					5 => Some("kernel/pmmr_hash.bin"),
+					6 => Some("output/pmmr_data.bin"),
+					7 => Some("kernel/pmmr_data.bin"),
+					_ => None,
+				};
+				let made = match server.txhashset_read(ah.hash()) {
+					Ok((_o, _k, file)) => hostile_archive(file, &ah, &mut rng, &work, target),
+					Err(e) => Err(format!("txhashset_read: {:?}", e)),
+				};
+				let (what, file) = match made {
+					Ok(x) => x,
+					Err(e) => {
+						let _ = std::fs::remove_dir_all(&work);
+						log.push(format!("hostile archive not built: {}", e));
+						continue;
+					}
+				};
+				bump(&mut faults, &format!("hostile_archive:{}", what.split('@').next().unwrap_or("")));
+				let chain = receiver.chain();
+				let hh = ah.hash();
+				let res = std::panic::catch_unwind(std::panic::AssertUnwindSafe(|| chain.txhashset_write(hh, file, &NoStatus)));
+				let _ = std::fs::remove_dir_all(&work);
+				match res {
+					Err(p) => {
+						let msg = p.downcast_ref::<String>().cloned().or_else(|| p.downcast_ref::<&str>().map(|s| s.to_string())).unwrap_or_else(|| "panic".into());
+						let v = viol("archive-panicked", format!("txhashset_write panicked on an archive with {}: {}", what, msg));
+						return finish(&mut receiver, Some(v), log, 0, probes, faults);
+					}
+					Ok(Ok(false)) => {
+						log.push(format!("hostile archive ({}) accepted", what));
+						if std::env::var("VERIF_DEBUG").is_ok() {
+							eprintln!("  hostile archive ({}) accepted", what);
+						}
+						bump(&mut probes, "hostile_archive_accepted");
+						bump(&mut probes, &format!("hostile_archive_accepted:{}", what.split(':').next().unwrap_or("")));
+						finalized_by_hostile = true;
+						break;
+					}
+					Ok(other) => {
+						log.push(format!("hostile archive ({}) refused: {:?}", what, other.map_err(|e| format!("{:?}", e).chars().take(80).collect::<String>())));
+						bump(&mut probes, "hostile_archive_refused");
+						let after = receiver.digest().ok();
+						if after != before {
+							let v = viol("refused-archive-changed-state", format!("an archive with {} was refused but the receiver went from {:?} to {:?}", what, before.map(|d| d.short()), after.map(|d| d.short())));
+							return finish(&mut receiver, Some(v), log, 0, probes, faults);
+						}
+					}
+				}
+			}
+		}
+		if finalized_by_hostile {
+			// falls through to the final-state comparison below: it must be the reference state
+		} else {
 		match server.txhashset_read(ah.hash()) {
 			Ok((_o, _k, file)) => {
 				let res = receiver.chain().txhashset_write(ah.hash(), file, &NoStatus);
@@ -381,6 +559,7 @@ pub fn run(world: &World, cfg: &RunCfg, seed: u64, tag: &str) -> Outcome {
 				let v = viol("zip-read-failed", format!("txhashset_read failed on the serving node: {:?}", e));
 				return finish(&mut receiver, Some(v), log, 0, probes, faults);
 			}
+		}
 		}
 	} else {
 		let segmenter = match server.segmenter() {
@@ -646,6 +825,15 @@ pub fn run(world: &World, cfg: &RunCfg, seed: u64, tag: &str) -> Outcome {
 	if let Err(e) = receiver.chain().validate(false) {
 		return finish(&mut receiver, Some(viol("final-validate-failed", format!("{:?}", e))), log, rounds, probes, faults);
 	}
+	for (c, want) in &ref_proofs {
+		let commit = grin_util::secp::pedersen::Commitment::from_vec(c.clone());
+		let got = receiver.chain().get_merkle_proof_for_pos(commit).ok().map(|p| sv(&p));
+		if &got != want {
+			let v = viol("final-merkle-proof-differs", format!("Merkle proof of unspent output {} differs from the one a node that processed every block gives ({} vs {} bytes): an inner hash of the output MMR is not the committed one", crate::rng::hex(&c[..8]), got.map(|g| g.len()).unwrap_or(0), want.as_ref().map(|g| g.len()).unwrap_or(0)));
+			return finish(&mut receiver, Some(v), log, rounds, probes, faults);
+		}
+	}
+	bump(&mut probes, "merkle_proofs_compared");
 	// then the remaining blocks, and a restart
 	for id in world.path_to(world.winner()) {
 		if world.blocks[id].height > ah.height {
@@ -840,6 +1028,13 @@ pub fn case(tier: &str, seed: u64, case: u64) -> CaseResult {
 			cfg.drop_pct = 0;
 			cfg.dup_pct = 0;
 			cfg.zip_mode = false;
+		}
+		if run_i == 1 && case % 2 == 0 {
+			// every other world: one sync from the state archive with byzantine archives first
+			cfg.zip_mode = true;
+			if cfg.corrupt_pct == 0 {
+				cfg.corrupt_pct = 15;
+			}
 		}
 		let rs = rr.next_u64();
 		let out = run(&world, &cfg, rs, &format!("pibd-c{}r{}", case, run_i));
